@@ -49,6 +49,11 @@ type seekableDecryptingReader struct {
 	segStart  int64 // plaintext offset where the buffered segment begins
 	plaintext []byte
 	segBuf    []byte
+
+	// lastVerified records that the final segment has been authenticated. The
+	// final segment carries the last-segment flag in its nonce, so only a
+	// successful decryption of it proves that the stream was not truncated.
+	lastVerified bool
 }
 
 const (
@@ -193,11 +198,27 @@ func (s *seekableDecryptingReader) loadSegment(j int64) error {
 	s.plaintext = plaintext
 	s.segIndex = j
 	s.segStart = s.plaintextStartOfSegment(j)
+	if j == s.numSegments-1 {
+		s.lastVerified = true
+	}
 	return nil
+}
+
+// verifyLastSegment authenticates the final segment unless that has already
+// happened. Without it a ciphertext cut at a segment boundary (or inside the
+// final tag) would read as a shorter, seemingly complete plaintext.
+func (s *seekableDecryptingReader) verifyLastSegment() error {
+	if s.lastVerified {
+		return nil
+	}
+	return s.loadSegment(s.numSegments - 1)
 }
 
 func (s *seekableDecryptingReader) Read(p []byte) (int, error) {
 	if s.pos >= s.plaintextLen {
+		if err := s.verifyLastSegment(); err != nil {
+			return 0, err
+		}
 		return 0, io.EOF
 	}
 	j := s.segmentForPlaintextOffset(s.pos)
